@@ -167,13 +167,13 @@ func (x *Exec) addObl(kind, name string, st *State, goal *Term, where string) {
 		x.trivial++
 		return
 	}
-	if goal.Op == "and" && (kind == "post" || kind == "inv" || kind == "lemma") && len(goal.Args) <= 400 {
+	if goal.Op == "and" && (kind == "post" || kind == "inv" || kind == "lemma" || kind == "assert") && len(goal.Args) <= 400 {
 		for i, g := range goal.Args {
 			x.addObl(kind, fmt.Sprintf("%s.c%d", name, i+1), st, g, where)
 		}
 		return
 	}
-	if goal.Op == "=>" && goal.Args[1].Op == "and" && (kind == "post" || kind == "inv" || kind == "lemma") && len(goal.Args[1].Args) <= 400 {
+	if goal.Op == "=>" && goal.Args[1].Op == "and" && (kind == "post" || kind == "inv" || kind == "lemma" || kind == "assert") && len(goal.Args[1].Args) <= 400 {
 		for i, g := range goal.Args[1].Args {
 			x.addObl(kind, fmt.Sprintf("%s.c%d", name, i+1), st, Implies(goal.Args[0], g), where)
 		}
